@@ -1,4 +1,5 @@
 import GsModel.Diff.SelfTop
+import GsModel.Diff.Total
 /-
   C12 — diff: a spec never differs from itself, and diff never crashes.
 
@@ -10,6 +11,14 @@ import GsModel.Diff.SelfTop
   * `self_identity`           — full strength for the identity half: for EVERY well-formed document, every fuel and
                                 every iteration order, a normal return of `analyse s s` is the empty report.
   * `reser_sets`, `reser_required` — re-serialisation of the lists the analyser reads as sets.
+  * `total_no_panic`          — the no-crash half: for EVERY pair of valid documents (every `$ref` at every depth names a
+                                definition, every array parameter / header level has items), every fuel and every
+                                iteration order, `analyse a b` is not a panic: none of the unguarded dereferences
+                                (`Type[0]`, `Items.Schema`, nil schema after `$ref` resolution, nil node) is reached —
+                                through `$ref` cycles, allOf, tuples, untyped schemas, path-level parameters.
+                                `invalid_ref_panics`, `array_without_items_panics`: both hypotheses are needed.
+                                NOT proved: termination (“never loops”) — the model recurses on fuel; the visited-key
+                                argument that bounds the real recursion is exercised by the correspondence run only.
   * `*_repaired`              — the totality half was FALSE of the pinned code: five concrete valid documents made the
                                 analyser panic (findings #1, #29, #39, #40, #41, all repaired by `fix:` commits in
                                 /repo); these theorems pin the repaired behaviour on exactly those documents.
@@ -133,5 +142,62 @@ def specArrTuple : Spec :=
 
 theorem array_tuple_repaired : okEmpty (analyse {} 50 specArrTuple specArrTuple) = true := by
   decide
+
+/-! ### totality: no panic on valid documents -/
+
+/-- The property, no-crash half, as a statement about the model (validity as the computable check `validB`, at every depth). -/
+def TotalityStatement : Prop :=
+  ∀ (fl : Flags) (n : Nat) (a b : Spec), (∀ k, a.validB k = true) → (∀ k, b.validB k = true) → NoPanic (analyse fl n a b)
+
+theorem total_no_panic : TotalityStatement :=
+  fun fl n a b ha hb => analyse_safe fl n a b (a.valid_of_validB ha) (b.valid_of_validB hb)
+
+/-- the same without the triple: the outcome is never `panic` -/
+theorem total_not_panic (fl : Flags) (n : Nat) (a b : Spec) (ha : ∀ k, a.validB k = true) (hb : ∀ k, b.validB k = true) :
+    (analyse fl n a b).isPanic = false := by
+  have := total_no_panic fl n a b ha hb
+  cases h : analyse fl n a b with
+  | ok _ => rfl
+  | fuel => rfl
+  | panic w => rw [h] at this; exact this.elim
+
+/-- non-vacuity: the sample document (a `$ref` cycle through `A.next`) is valid at every depth -/
+theorem sample_valid : ∀ k, sampleSpec.validB k = true := by
+  intro k
+  match k with
+  | 0 => decide
+  | 1 => decide
+  | k+2 =>
+    simp [Spec.validB, getURLMethodsFor, sampleSpec, sampleOp, sampleParam, sampleDef, Param.okB, Response.okB, chainOk,
+      schemaOk, Schema.children, refOk, lookup, primitiveTypeString]
+
+/-- a second valid document, different from the first in a `$ref`-typed property, a path-level array parameter and a tuple -/
+def sampleSpec2 : Spec :=
+  { paths := [{ url := "/a", params := [{ name := "ids", loc := "query", chain := [{ type := "array" }, { type := "integer" }] }],
+                ops := [{ method := "get", responses := [{ code := 200, desc := "ok", schema := some { ref := "B" } }] }] }],
+    defs := [("A", { type := ["object"], hasProps := true, props := [("next", { ref := "B" })], allOf := [{ ref := "B" }] }),
+             ("B", { type := ["array"], hasItems := true, itemMany := [{ type := ["string"] }] })] }
+
+theorem sample2_valid : ∀ k, sampleSpec2.validB k = true := by
+  intro k
+  match k with
+  | 0 => decide
+  | 1 => decide
+  | k+2 =>
+    simp [Spec.validB, getURLMethodsFor, sampleSpec2, Param.okB, Response.okB, chainOk,
+      schemaOk, Schema.children, refOk, lookup, primitiveTypeString]
+
+example : (analyse {} 50 sampleSpec sampleSpec2).isOk = true ∧ (analyse {} 50 sampleSpec2 sampleSpec).isOk = true := by decide
+
+/-- the hypotheses are needed: a `$ref` to a missing definition is a nil dereference … -/
+def specDangling : Spec :=
+  { paths := [{ url := "/a", ops := [{ method := "get", responses := [{ code := 200, desc := "ok", schema := some { ref := "Nope" } }] }] }] }
+theorem invalid_ref_panics : specDangling.validB 1 = false ∧ (analyse {} 50 specDangling specDangling).isPanic = true := by decide
+
+/-- … and so is an array parameter without items. -/
+def specNoItems : Spec :=
+  { paths := [{ url := "/a", ops := [{ method := "get", params := [{ name := "ids", loc := "query", chain := [{ type := "array" }] }],
+                                        responses := [{ code := 200, desc := "ok" }] }] }] }
+theorem array_without_items_panics : specNoItems.validB 0 = false ∧ (analyse {} 50 specNoItems specNoItems).isPanic = true := by decide
 
 end Gs.Props.C12
